@@ -253,6 +253,78 @@ Theorem batch_independent : forall (O : Type) mdf nz l lead t (f : list Q -> O),
 Proof. exact batch_independent_full. Qed.
 Print Assumptions batch_independent.
 
+(* ================= deepening round ================= *)
+(* the generic Dict / Tuple handling used by the extended model is the original one; r0 = false is the original prep *)
+Theorem prep_g_is_prep : forall mdf nz sp o, prep_g (prep_leaf mdf nz) sp o = prep mdf nz sp o.
+Proof. exact prep_g_is_prep_lemma. Qed.
+Print Assumptions prep_g_is_prep.
+
+Theorem prep_r_false_is_prep : forall mdf nz sp o, prep_r false mdf nz sp o = prep mdf nz sp o.
+Proof. exact prep_r_false_lemma. Qed.
+Print Assumptions prep_r_false_is_prep.
+
+(* with the feature axis for scalar Box spaces the prepared tensor is batch :: ENCODER input shape for every leaf kind *)
+Theorem prep_shape_encoder : forall mdf nz l lead t,
+  supported mdf l lead t ->
+  exists t', prep_leaf_r true mdf nz l t = Some t' /\ shp t' = prod lead :: encoder_input_shape l.
+Proof. exact prep_shape_r_lemma. Qed.
+Print Assumptions prep_shape_encoder.
+
+Theorem prep_rowwise_encoder : forall mdf nz l lead t,
+  supported mdf l lead t ->
+  exists t', prep_leaf_r true mdf nz l t = Some t' /\
+    Forall2 (fun row r_in => prep_leaf_r true mdf nz l (T (space_shape l) r_in) = Some (T (1 :: encoder_input_shape l) row))
+            (rows t') (chunks (prod (space_shape l)) (prod lead) (dat t)).
+Proof. exact prep_rowwise_r_lemma. Qed.
+Print Assumptions prep_rowwise_encoder.
+
+(* single-agent get_action with a row-wise network: every supported batch is accepted by the network (no shape error)
+   and the reports are f of the prepared rows, one per observation *)
+Theorem get_action_accepts : forall (O : Type) mdf nz l lead t (f : list Q -> O),
+  supported mdf l lead t ->
+  exists t', prep_leaf_r true mdf nz l t = Some t' /\
+             get_action_model true mdf nz l f t = Some (map f (rows t')).
+Proof. exact @get_action_accepts_lemma. Qed.
+Print Assumptions get_action_accepts.
+
+(* the prepared tensor is well formed: as many data as batch * encoder input size *)
+Theorem prep_wf : forall mdf nz l lead t,
+  supported mdf l lead t ->
+  exists t', prep_leaf_r true mdf nz l t = Some t' /\ shp t' = prod lead :: encoder_input_shape l /\ wf t'.
+Proof. exact prep_wf_lemma. Qed.
+Print Assumptions prep_wf.
+
+(* the final clause of the property, end to end in the model (preparation + shape check of the network + row-wise network):
+   the report for every observation of a batch is the report for that observation handed in alone — whatever the batch
+   size, the (step, env) layout and the other observations sharing the call *)
+Theorem get_action_batch_independent : forall (O : Type) mdf nz l lead t (f : list Q -> O),
+  supported mdf l lead t ->
+  exists outs, get_action_model true mdf nz l f t = Some outs /\
+    Forall2 (fun out r_in => get_action_model true mdf nz l f (T (space_shape l) r_in) = Some [out])
+            outs (chunks (prod (space_shape l)) (prod lead) (dat t)).
+Proof. exact @get_action_batch_independent_lemma. Qed.
+Print Assumptions get_action_batch_independent.
+
+(* before the rank-0 repair: a batch of scalar Box observations is rejected by the one-feature encoder although each
+   observation alone is served; with the repair the batch is served row by row *)
+Theorem rank0_batch_pinned_refuted :
+  exists b lo hi t, supported true (Box [] b lo hi) [3] t /\
+    get_action_model false true true (Box [] b lo hi) (fun r => r) t = None /\
+    Forall (fun x => get_action_model false true true (Box [] b lo hi) (fun r => r) (T [] [x]) = Some [[x]]) (dat t) /\
+    get_action_model true true true (Box [] b lo hi) (fun r => r) t = Some (map (fun x => [x]) (dat t)).
+Proof. exact rank0_batch_pinned_refuted_lemma. Qed.
+Print Assumptions rank0_batch_pinned_refuted.
+
+(* MultiBinary with several dimensions (shape = dims) is batched as a rank-1 space: an unbatched observation gets NO batch
+   dimension, a batch is an error — the property fails for this space kind (known finding) *)
+Theorem prep_mb_nd_refuted : forall dims t,
+  length dims = 2 ->
+  (shp t = dims -> prep_mb_nd dims t = Some t) /\
+  (forall b, shp t = b :: dims -> prep_mb_nd dims t = None) /\
+  (forall d, shp t = [d] -> prep_mb_nd dims t = Some (unsqueeze0 t)).
+Proof. exact prep_mb_nd_refuted_lemma. Qed.
+Print Assumptions prep_mb_nd_refuted.
+
 (* ---- non-vacuity: concrete inputs satisfy the hypotheses and exercise the interesting branches ---- *)
 Example supported_discrete_batch_of_one : supported false (Discrete 3) [1; 1] (T [1; 1] [2%Q]).
 Proof. repeat split; cbn; auto; repeat constructor. Qed.
